@@ -49,7 +49,9 @@ pub fn ignore_filter(entry: &DirEntry, ignore: &Option<Gitignore>) -> bool {
         None => true,
         Some(gi) => {
             let path = entry.path();
-            let m = gi.matched(path, path.is_dir());
+            // Use the entry's own type: a symlink to a directory is
+            // not a directory as far as directory-only patterns go.
+            let m = gi.matched(path, entry.file_type().is_dir());
             !m.is_ignore()
         }
     }
